@@ -284,8 +284,31 @@ fn family(out: &mut Vec<Config>, ctor: Ctor, nthreads: usize, max_len: usize) {
     }
 }
 
+/// Every constructor shape, one thread: the allocation is tracked, clone and drop are loom operations.
+fn probe() {
+    for ctor in [Ctor::Slice3, Ctor::VecExcess, Ctor::Str] {
+        let a0 = lalloc::counters().0;
+        must_branch("SharedBytes build / clone / drop / drop", || {
+            let b = ctor.build();
+            if lalloc::counters().0 == a0 {
+                fail!("un-instrumented", "{}: building the buffer did not go through the tracked allocator", ctor.tag());
+            }
+            let base = match &b {
+                Buf::B(x) => x.as_ptr() as usize,
+                Buf::S(x) => x.as_ptr() as usize,
+            };
+            let c = b.dup();
+            c.check(ctor, base, "probe/clone");
+            drop(c);
+            b.check(ctor, base, "probe/original");
+            drop(b);
+        });
+    }
+    outcome(&PROBE);
+}
+
 pub fn configs(thorough: bool) -> Vec<Config> {
-    let mut v = vec![];
+    let mut v = vec![Config::new(PROBE.into(), Bound::Unbounded, probe)];
     let all = [Ctor::Slice3, Ctor::Slice0, Ctor::VecExact, Ctor::VecExcess, Ctor::VecEmpty, Ctor::Str, Ctor::StrOwned];
     if !thorough {
         for c in all {
@@ -311,3 +334,11 @@ pub fn configs(thorough: bool) -> Vec<Config> {
     v.retain(|c| seen.insert(c.name.clone()));
     v
 }
+
+pub const SUB: crate::driver::Sub = crate::driver::Sub {
+    name: "c16_bytes_loom",
+    property: "C16",
+    configs,
+    rule: "configs = constructor shape {from_slice len 3/0, from_vec exact/excess/zero capacity, SharedString from &str/String} x every valid program of <=L operations {clone, drop, send-a-clone, receive-and-drop} per thread (ring of 2-3 threads, up to rotation), main drops the original concurrently; contents/aliasing/liveness checked around every operation; for each config loom enumerates every interleaving of the refcount atomics and mailbox locks within the preemption bound; alloc/dealloc are loom-tracked. distinct = distinct (mail received, leftover, allocs, frees) observations",
+    bound: "quick: 2 threads x <=2 ops (all 7 constructors), 2 threads x <=3 ops (2 constructors), 3 threads x <=1 op (3 constructors), 3 threads x <=2 ops (from_vec with excess capacity); thorough: 2 threads x <=3 ops (all 7 constructors), 3 threads x <=2 ops (3 constructors)",
+};
